@@ -326,47 +326,72 @@ func rdpSettings(p *pkg) []setting {
 }
 
 // configDefaults extracts the map literal given to confmap.Provider in config.Load.
+// configDefaults: the defaults map handed to koanf — the first map literal of the package whose keys are
+// dotted setting names ("Server.Tls", …), wherever it stands (in Load or in a helper); values are read
+// as constants (a literal, or a named constant such as TlsAuto).
 func configDefaults(p *pkg) [][2]string {
 	var out [][2]string
-	fd := funcDecl(p, "Load")
-	if fd == nil {
-		return out
-	}
 	done := false
-	ast.Inspect(fd.Body, func(n ast.Node) bool {
-		cl, ok := n.(*ast.CompositeLit)
-		if !ok || done {
-			return true
-		}
-		if _, ok := cl.Type.(*ast.MapType); !ok {
-			return true
-		}
-		for _, e := range cl.Elts {
-			kv, ok := e.(*ast.KeyValueExpr)
-			if !ok {
-				continue
+	for _, f := range p.files {
+		ast.Inspect(f, func(n ast.Node) bool {
+			cl, ok := n.(*ast.CompositeLit)
+			if !ok || done {
+				return !done
 			}
-			k, ok := kv.Key.(*ast.BasicLit)
-			if !ok {
-				continue
+			if _, ok := cl.Type.(*ast.MapType); !ok {
+				return true
 			}
-			ks, _ := strconv.Unquote(k.Value)
-			vs := ""
-			switch v := kv.Value.(type) {
-			case *ast.BasicLit:
-				if v.Kind == token.STRING {
-					vs, _ = strconv.Unquote(v.Value)
-				} else {
-					vs = v.Value
+			var rows [][2]string
+			dotted := 0
+			for _, e := range cl.Elts {
+				kv, ok := e.(*ast.KeyValueExpr)
+				if !ok {
+					continue
 				}
-			case *ast.Ident:
-				vs = v.Name
+				ks := ""
+				if tv, ok := p.info.Types[kv.Key]; ok && tv.Value != nil && tv.Value.Kind() == constant.String {
+					ks = constant.StringVal(tv.Value)
+				} else if k, ok := kv.Key.(*ast.BasicLit); ok {
+					ks, _ = strconv.Unquote(k.Value)
+				} else {
+					continue
+				}
+				if strings.Contains(ks, ".") {
+					dotted++
+				}
+				vs := ""
+				if tv, ok := p.info.Types[kv.Value]; ok && tv.Value != nil {
+					switch tv.Value.Kind() {
+					case constant.String:
+						vs = constant.StringVal(tv.Value)
+					default:
+						vs = tv.Value.ExactString()
+					}
+				} else {
+					switch v := kv.Value.(type) {
+					case *ast.BasicLit:
+						if v.Kind == token.STRING {
+							vs, _ = strconv.Unquote(v.Value)
+						} else {
+							vs = v.Value
+						}
+					case *ast.Ident:
+						vs = v.Name
+					}
+				}
+				rows = append(rows, [2]string{ks, vs})
 			}
-			out = append(out, [2]string{ks, vs})
+			if dotted >= 3 {
+				out = rows
+				done = true
+				return false
+			}
+			return true
+		})
+		if done {
+			break
 		}
-		done = true
-		return false
-	})
+	}
 	return out
 }
 
@@ -458,6 +483,18 @@ func main() {
 	b.WriteString("/- GENERATED by harness/extract from config.Load's defaults map — do not edit -/\n\n")
 	b.WriteString("namespace Rdpgw.Generated.ConfigDefaults\n\ndef table : List (String × String) := [\n")
 	cd := configDefaults(cfg)
+	if len(cd) == 0 {
+		// not found (moved somewhere the extractor does not look): the table of the verified tree is kept
+		// and the evidence says so — an absent table is not a table without defaults
+		missing = append(missing, "the defaults map of config.Load (baseline table kept; the binary tier still covers the defaults)")
+		if old, err := os.ReadFile(filepath.Join(baselineDir, "ConfigDefaults.lean")); err == nil {
+			for _, m := range regexp.MustCompile(`(?m)^  \("((?:[^"\\]|\\.)*)", "((?:[^"\\]|\\.)*)"\),?$`).FindAllStringSubmatch(string(old), -1) {
+				k, _ := strconv.Unquote(`"` + m[1] + `"`)
+				v, _ := strconv.Unquote(`"` + m[2] + `"`)
+				cd = append(cd, [2]string{k, v})
+			}
+		}
+	}
 	for i, kv := range cd {
 		sep := ","
 		if i == len(cd)-1 {
